@@ -366,6 +366,7 @@ def run_items(items, jobs=None):
     order = sorted(range(len(items)), key=lambda i: -items[i].get("weight", 1))
     results = [None] * len(items)
     procs = {}        # rfd -> _Proc
+    attempts = {}
     grace = 180.0
     default_budget = float(os.environ.get("PYSX_ITEM_BUDGET_S", "900"))
 
@@ -407,14 +408,21 @@ def run_items(items, jobs=None):
                 os.close(fd)
             except OSError:
                 pass
+        status = None
         try:
-            os.waitpid(p.pid, 0)
+            status = os.waitpid(p.pid, 0)[1]
         except ChildProcessError:
             pass
         if failed and p.idx is not None:
-            res = _empty_result(items[p.idx])
-            res["error"] = "the worker process running this item died without reporting"
-            results[p.idx] = res
+            how = "signal %d" % (status & 0x7F) if status is not None and status & 0x7F else "exit status %r" % (None if status is None else status >> 8)
+            attempts[p.idx] = attempts.get(p.idx, 0) + 1
+            sys.stderr.write("worker for item %r died (%s), attempt %d\n" % (items[p.idx].get("name"), how, attempts[p.idx]))
+            if attempts[p.idx] < 3:
+                order.insert(0, p.idx)      # run it again in a fresh worker
+            else:
+                res = _empty_result(items[p.idx])
+                res["error"] = "the worker process running this item died without reporting, three times (%s)" % how
+                results[p.idx] = res
 
     while order or any(p.idx is not None for p in procs.values()):
         for p in list(procs.values()):
